@@ -3,9 +3,10 @@
 
    Model: Model/SubstratePath.v, Model/SubstrateScale.v (+ Model/PyText.v for str.isnumeric / int()).
    Blake2b-256 and the sr25519 operations are universally quantified functions (oracles).
-   [chain_code] is the rule the property demands (a junction that str.isnumeric() takes for a number but
-   int() cannot read is refused with SubstratePathError); [chain_code_current] is today's code, where
-   int()'s ValueError escapes (defect F5).
+   [chain_code]: a junction of decimal digits only (str.isdecimal(), any script) is an integer; every other
+   junction -- including characters that are numeric but not decimal, such as superscripts, fractions and CJK
+   numerals -- is text.  (Before /repo commit 7ac5fcb the code tested str.isnumeric() and let int()'s
+   ValueError escape for those: defect F5, repaired.)
    Not covered here: "the address is the SS58 encoding of the public key" -- SS58 is modelled by
    another contributor; harness/props/C19.py checks it directly on the implementation for all coins. *)
 From Coq Require Import NArith ZArith List.
@@ -53,48 +54,26 @@ Theorem parse_rejects_with_path_error : forall s e, parse s = Err e -> e = LibEr
 Proof. exact Lemmas.SubstratePath.parse_err. Qed.
 Print Assumptions parse_rejects_with_path_error.
 
-(* ---- decimal junctions: the little-endian integer in 32 bytes below 2^256, the path error from 2^256 on ---- *)
-Theorem chain_code_numeric : forall (blake : list N -> list N) body,
-  body <> [] -> forallb cp_isdecimal body = true -> int_limit_ok (length body) = true ->
-  (numeral_value body < 2 ^ 256 ->
+(* ---- decimal junctions: the little-endian integer in 32 bytes below 2^256, the path error from 2^256 on
+        (and for numerals with more digits than the interpreter's int() reads, 4300 by default) ---- *)
+Theorem chain_code_numeric : forall (blake : list N -> list N) body, py_isdecimal body = true ->
+  (int_limit_ok (length body) = true -> numeral_value body < 2 ^ 256 ->
      exists b, chain_code blake body = Ok b /\ length b = 32%nat /\ bytes_ok b /\ le_to_int b = numeral_value body) /\
-  (2 ^ 256 <= numeral_value body -> chain_code blake body = Err (LibError SubstratePathError)).
-Proof. intros blake body. exact (Lemmas.SubstratePath.chain_code_numeric blake _ body). Qed.
+  (int_limit_ok (length body) = true -> 2 ^ 256 <= numeral_value body ->
+     chain_code blake body = Err (LibError SubstratePathError)) /\
+  (int_limit_ok (length body) = false -> chain_code blake body = Err (LibError SubstratePathError)).
+Proof. exact Lemmas.SubstratePath.chain_code_numeric. Qed.
 Print Assumptions chain_code_numeric.
 
-Example chain_code_numeric_ex :   (* "007" *)
-  let body := [48; 48; 55] in
-  body <> [] /\ forallb cp_isdecimal body = true /\ int_limit_ok (length body) = true /\ numeral_value body = 7.
-Proof. split; [discriminate|]. vm_compute. auto. Qed.
+Example chain_code_numeric_ex :   (* "007", and the Arabic-Indic numeral U+0663 U+0664 = 34 *)
+  py_isdecimal [48; 48; 55] = true /\ int_limit_ok 3 = true /\ numeral_value [48; 48; 55] = 7 /\
+  py_isdecimal [1635; 1636] = true /\ numeral_value [1635; 1636] = 34.
+Proof. vm_compute. auto 6. Qed.
 Print Assumptions chain_code_numeric_ex.
-
-(* a junction str.isnumeric() accepts and int() refuses: the path error (demanded) ... *)
-Theorem chain_code_numeric_not_int : forall (blake : list N -> list N) body, py_isnumeric body = true ->
-  (forallb cp_isdecimal body = false \/ int_limit_ok (length body) = false) ->
-  chain_code blake body = Err (LibError SubstratePathError).
-Proof. intros blake body. exact (Lemmas.SubstratePath.chain_code_numeric_not_int blake _ body). Qed.
-Print Assumptions chain_code_numeric_not_int.
-
-(* ... F5: today the code raises a bare ValueError instead.  Full-strength statement (false of the code):
-     forall body e, chain_code_current blake body = Err e -> e = SubstratePathError \/ e = UnicodeError.
-   Witness: the junction "²". *)
-Theorem chain_code_rejects_with_path_error_refuted : forall (blake : list N -> list N),
-  exists body, chain_code_current blake body = Err ValueError /\
-               chain_code blake body = Err (LibError SubstratePathError).
-Proof. exact Lemmas.SubstratePath.chain_code_current_refuted. Qed.
-Print Assumptions chain_code_rejects_with_path_error_refuted.
-
-(* what holds today (_partial): on decimal junctions within int()'s digit limit, and on text, the two agree *)
-Theorem chain_code_current_partial : forall (blake : list N -> list N) body,
-  (py_isnumeric body = false \/
-   (body <> [] /\ forallb cp_isdecimal body = true /\ int_limit_ok (length body) = true)) ->
-  chain_code_current blake body = chain_code blake body.
-Proof. intros blake body. exact (Lemmas.SubstratePath.chain_code_gen_err_indep blake _ _ body). Qed.
-Print Assumptions chain_code_current_partial.
 
 (* ---- any other junction: SCALE compact length prefix, UTF-8 text; zero-padded to 32 bytes or Blake2b-256 ---- *)
 Theorem chain_code_text : forall (blake : list N -> list N) body u,
-  py_isnumeric body = false -> utf8_encode body = Ok u ->
+  py_isdecimal body = false -> utf8_encode body = Ok u ->
   let n := N.of_nat (length u) in
   ((length u <= 31)%nat -> chain_code blake body = Ok (4 * n :: u ++ repeat 0 (31 - length u))) /\
   ((32 <= length u)%nat -> n < 2 ^ 6 -> chain_code blake body = Ok (blake (4 * n :: u))) /\
@@ -102,23 +81,43 @@ Theorem chain_code_text : forall (blake : list N -> list N) body u,
      chain_code blake body = Ok (blake (pre ++ u))) /\
   (2 ^ 14 <= n < 2 ^ 30 -> exists pre, length pre = 4%nat /\ bytes_ok pre /\ le_to_int pre = 4 * n + 2 /\
      chain_code blake body = Ok (blake (pre ++ u))).
-Proof. intros blake body u. exact (Lemmas.SubstratePath.chain_code_text blake _ body u). Qed.
+Proof. exact Lemmas.SubstratePath.chain_code_text. Qed.
 Print Assumptions chain_code_text.
 
 Example chain_code_text_ex :      (* "Alice" *)
   let body := [65; 108; 105; 99; 101] in
-  py_isnumeric body = false /\ utf8_encode body = Ok body /\
+  py_isdecimal body = false /\ utf8_encode body = Ok body /\
   forall blake, chain_code blake body = Ok ([20; 65; 108; 105; 99; 101] ++ repeat 0 26).
 Proof. split; [vm_compute; reflexivity|]. split; [vm_compute; reflexivity|]. intros blake. vm_compute. reflexivity. Qed.
 Print Assumptions chain_code_text_ex.
 
+(* numeric for str.isnumeric() but not decimal: U+00B2 SUPERSCRIPT TWO is a TEXT junction, 08 c2 b2 00.. *)
+Example chain_code_text_sup2_ex :
+  let body := [178] in
+  py_isnumeric body = true /\ py_isdecimal body = false /\ utf8_encode body = Ok [194; 178] /\
+  forall blake, chain_code blake body = Ok ([8; 194; 178] ++ repeat 0 29).
+Proof.
+  split; [vm_compute; reflexivity|]. split; [vm_compute; reflexivity|]. split; [vm_compute; reflexivity|].
+  intros blake. vm_compute. reflexivity.
+Qed.
+Print Assumptions chain_code_text_sup2_ex.
+
 Theorem chain_code_text_unencodable : forall (blake : list N -> list N) body e,
-  py_isnumeric body = false -> utf8_encode body = Err e -> chain_code blake body = Err UnicodeError.
-Proof. intros blake body e. exact (Lemmas.SubstratePath.chain_code_text_unencodable blake _ body e). Qed.
+  py_isdecimal body = false -> utf8_encode body = Err e -> chain_code blake body = Err UnicodeError.
+Proof. exact Lemmas.SubstratePath.chain_code_text_unencodable. Qed.
 Print Assumptions chain_code_text_unencodable.
 
+(* every refusal is the path error, except the encoding error of a text junction holding a lone surrogate
+   (junction texts below 2^30 encoded bytes, the range of the fixed-width compact modes) *)
+Theorem chain_code_rejects_with_path_error : forall (blake : list N -> list N) body e,
+  (forall u, utf8_encode body = Ok u -> N.of_nat (length u) < 2 ^ 30) ->
+  chain_code blake body = Err e ->
+  e = LibError SubstratePathError \/ (e = UnicodeError /\ py_isdecimal body = false).
+Proof. exact Lemmas.SubstratePath.chain_code_err. Qed.
+Print Assumptions chain_code_rejects_with_path_error.
+
 Example chain_code_text_unencodable_ex :   (* a lone surrogate U+D800 *)
-  py_isnumeric [55296] = false /\ utf8_encode [55296] = Err UnicodeError.
+  py_isdecimal [55296] = false /\ utf8_encode [55296] = Err UnicodeError.
 Proof. vm_compute. auto. Qed.
 Print Assumptions chain_code_text_unencodable_ex.
 
